@@ -1864,6 +1864,65 @@ fn c01gen(tr: &mut Option<std::fs::File>) {
             }
         }
     }
+    // 3d2. Apple `kern` tables with format-1 STATE MACHINES (written byte by byte: fontgen has no writer for them): random
+    //      small machines over one glyph class - entries that push, apply a value list, and do or do not advance, from any
+    //      state, the start states included (a non-advancing entry of a start state acts before any glyph is consumed)
+    {
+        let mut rr = Rng::new(0xA991E);
+        for k in 0..160u32 {
+            let nstates = 2 + rr.below(3) as u16;
+            let nentries = 3 + rr.below(4) as u16;
+            const NCLASSES: u16 = 5;
+            let class_off = 10u16;
+            let state_off = 16u16;
+            let mut entry_off = state_off + NCLASSES * nstates;
+            if entry_off % 2 == 1 {
+                entry_off += 1;
+            }
+            let value_off = entry_off + 4 * nentries;
+            let st = |j: u16| state_off + NCLASSES * j;
+            let mut d: Vec<u8> = Vec::new();
+            for x in [NCLASSES, class_off, state_off, entry_off, value_off] {
+                d.extend_from_slice(&x.to_be_bytes());
+            }
+            d.extend_from_slice(&1u16.to_be_bytes()); // first glyph
+            d.extend_from_slice(&1u16.to_be_bytes()); // number of glyphs
+            d.push(4);
+            d.push(0);
+            for _ in 0..nstates {
+                d.extend_from_slice(&[0, 0, 0, 0, 1 + rr.below(nentries as u64 - 1) as u8]);
+            }
+            while d.len() < entry_off as usize {
+                d.push(0);
+            }
+            // entry 0: back to the start state, advance; the others random
+            d.extend_from_slice(&st(0).to_be_bytes());
+            d.extend_from_slice(&0u16.to_be_bytes());
+            for _ in 1..nentries {
+                let flags: u16 = *rr.pick(&[0u16, 0x4000, 0x8000, 0x8000 | value_off, 0xC000, value_off, 0x4000 | value_off]);
+                d.extend_from_slice(&st(rr.below(nstates as u64) as u16).to_be_bytes());
+                d.extend_from_slice(&flags.to_be_bytes());
+            }
+            for v in [-40i16, -22, -31] {
+                d.extend_from_slice(&v.to_be_bytes());
+            }
+            let mut t: Vec<u8> = Vec::new();
+            t.extend_from_slice(&0x0001_0000u32.to_be_bytes());
+            t.extend_from_slice(&1u32.to_be_bytes());
+            t.extend_from_slice(&(8 + d.len() as u32).to_be_bytes());
+            t.push(if k % 5 == 4 { 0x40 } else { 0 }); // coverage (cross-stream now and then)
+            t.push(1); // format 1
+            t.extend_from_slice(&0u16.to_be_bytes());
+            t.extend_from_slice(&d);
+            let mut f = FontSpec::basic(3);
+            f.raw_tables = vec![(*b"kern", t)];
+            for n in [1usize, 2, 3, 8] {
+                for dir in [Direction::LeftToRight, Direction::RightToLeft] {
+                    run_case(&format!("apple-kern-state-machine-{}", k), &f, Req { text: text_of(n, &[pua(0)]), flags: 3, dir: Some(dir), level: (k % 3) as u8, ..Default::default() }, &mut cnt, tr);
+                }
+            }
+        }
+    }
     // 3e0. a context rule whose records act on a position an EARLIER record of the same rule has deleted (MultipleSubst with
     //      an empty sequence shrinks the buffer but not the list of match positions), with the match at the very end of the
     //      text, in the middle, and repeated
